@@ -350,6 +350,7 @@ func verifBastionReplayFacts(d *verifDeployment, malformed bool, oldSize uint64,
 		}
 	}
 	ok := small && rt.Count("SignFail") == 0
+	rt.Prefer(ok) // violation witnesses: ask for a model the native replay can rebuild
 	st := rec.Status
 	rt.Cover(ok && st == 429, "replay/b-429")
 	rt.Cover(ok && st == 400 && malformed, "replay/b-400-malformed")
